@@ -296,7 +296,7 @@ def c10_table():
     for mtype in ("CON", "NON", "ACK", "RST"):
         for cname, code in CODE_CLASSES.items():
             for known in (False, True):
-                for mc in (False, True):
+                for mc in (False, True, "v4"):
                     ev = []
                     rules = []
                     tok = "-"
@@ -314,7 +314,7 @@ def c10_table():
                         ev.append(respond(t + 1000, 0, body=6))
                     ev.append(far_end(ev))
                     scripts.append({"events": ev, "rules": rules, "draws": [],
-                                    "tag": f"table:{mtype}:{cname}:{'known' if known else 'unknown'}:{'mc' if mc else 'uc'}"})
+                                    "tag": f"table:{mtype}:{cname}:{'known' if known else 'unknown'}:{('mc' + (mc if mc == 'v4' else '')) if mc else 'uc'}"})
     # handler speed x No-Response for CON and NON requests
     for mtype in ("CON", "NON"):
         for speed in ("fast", "slow"):
@@ -449,8 +449,33 @@ def c18_random(rng, cfg):
     events.append(["X", ts])
     if rng.random() < 0.5:
         events.append(submit(clock.at(ts + rng.randrange(1, 3 * M)), 50, 0, rel=True))
+    if rng.random() < 0.3:
+        # a request submitted while the shutdown is in progress: same tick, k loop iterations later
+        ev = submit(ts, 51, rng.randrange(3), rel=rng.random() < 0.5)
+        ev += [None, rng.randrange(0, 7)]
+        events.append(ev)
     if rng.random() < 0.5:
         events.append(respond(clock.at(ts + rng.randrange(1, 3 * M)), 0, body=1))
     events.sort(key=lambda e: e[1])
     events.append(far_end(events))
     return {"events": events, "rules": s["rules"], "draws": s["draws"], "tag": "random"}
+
+
+def c18_handler(rng):
+    """a served request whose handler awaits a request of its own through the same context (as the
+    forward proxy does); shutdown while it waits.  Oracle-only."""
+    clock = Clock(rng)
+    events = []
+    n = rng.randrange(1, 3)
+    for i in range(n):
+        t = clock.after(100, 2 * M)
+        events.append(request_in(t, i, 600 + i, "%02x" % (0xc0 + i), mtype=rng.choice(["CON", "NON"]), body=i))
+        events.append(["H", clock.at(t + rng.randrange(10, 300000)), i, 70 + i, 3])
+    if rng.random() < 0.5:
+        events.append(submit(clock.after(1, M), 0, 1, rel=rng.random() < 0.5))
+    events.sort(key=lambda e: e[1])
+    ts = clock.at(events[-1][1] + rng.choice([1, 1000, 3 * M]))
+    events.append(["X", ts])
+    events.append(far_end(events))
+    return {"events": events, "rules": [], "draws": [], "tag": "handler-request",
+            "oracle_only": "handler-awaits-own-request", "second_context": True}
